@@ -297,6 +297,7 @@ func targets() []target {
 		{"mx.Wkt", gen(mk("mx.Wkt"))},
 		{"google.protobuf.Any", gen(&anypb.Any{})},
 		{"mx.One", gen(mk("mx.One"))},
+		{"mx.ChainL", gen(mk("mx.ChainL"))},
 	}
 }
 
